@@ -14,7 +14,8 @@
        fixed   : {"complete","truncated","badvalue"},
        inner   : InnerClass,\* a length-prefixed region inside the fixed part vs what it contains
        recs    : Seq(TlvRec),
-       tail    : {"none","partial_type","type_only","partial_len","excess","garbage"} ]
+       tail    : {"none","partial_type","type_only","partial_len","excess","garbage"},
+       size    : SizeClass ]\* size class of one variable-length field (see below)
    tail: what follows the last complete record -- nothing, a started record cut inside its type,
    after its type or inside its length, retained excess data (gossip), or arbitrary bytes.
 
@@ -47,6 +48,47 @@ TailClass == {"none", "partial_type", "type_only", "partial_len", "excess", "gar
      "mismatch"     a region that must be filled exactly (prevtx, witness, 8-byte id list) is not,
      "short_opaque" an opaque region declared shorter: the following fields shift (no claim). *)
 InnerClass == {"none", "boundary", "retained", "overrun", "mismatch", "short_opaque"}
+(* Size class of ONE variable-length field of the message (a length-prefixed or rest-of-message byte
+   string, a counted list, the value of a TLV record, the payload of an unknown message type).
+   The number of elements n the field holds is placed relative to every internal boundary a codec
+   has: 64 (io_extras::copy / read_to_end work in 64-byte chunks: retained excess data, skipped
+   TLV values), 253 (BigSize / CollectionLength change width at 0xfd), 4096 (chunked read of the
+   onion-message packet), 65535 (u16 length prefixes and the message itself end there; no class of
+   it fits into a message -- CanFit -- so it is represented by "max": the largest n with which the
+   message still is a message).
+     at  : "field"   a field of the kind (fixed part or value of a known TLV) resp. the payload of
+                     a message of an unknown type,
+           "odd_tlv" the value of an unknown odd TLV record after the known ones,
+     pos : where n lies: 0, 1, b-1, b, b+1, 2b-1, 2b, 2b+1, "rand" (any), "max".
+   A size class never changes the verdict of a message that fits: the property quantifies over every
+   message the library can construct, boundary-length vectors included. *)
+Boundaries == {64, 253, 4096, 65535}
+MaxMsg     == 65535                                   \* BOLT-8: type id + payload
+BndPos     == {"bm1", "b", "bp1", "2bm1", "2b", "2bp1"}
+NoSize     == [at |-> "none", bnd |-> 0, pos |-> "none"]
+SizeClass  == {NoSize}
+              \cup [at : {"field", "odd_tlv"}, bnd : {0}, pos : {"zero", "one", "rand", "max"}]
+              \cup [at : {"field", "odd_tlv"}, bnd : Boundaries, pos : BndPos]
+Determinate(s) == s.pos \notin {"none", "rand", "max"}
+SizeN(s) == CASE s.pos = "zero" -> 0
+              [] s.pos = "one"  -> 1
+              [] s.pos = "bm1"  -> s.bnd - 1
+              [] s.pos = "b"    -> s.bnd
+              [] s.pos = "bp1"  -> s.bnd + 1
+              [] s.pos = "2bm1" -> 2 * s.bnd - 1
+              [] s.pos = "2b"   -> 2 * s.bnd
+              [] s.pos = "2bp1" -> 2 * s.bnd + 1
+(* necessary for the field to fit into a message at all: 2-byte type id + n one-byte elements *)
+CanFit(s) == Determinate(s) => SizeN(s) + 2 <= MaxMsg
+(* What the execution must show for a size class: n elements of (at least) `unit` bytes each in a
+   message of `total` bytes (type id included); "max": one more element does not fit (2 bytes of
+   slack for a length prefix that widens). *)
+SizeOK(s, n, unit, total) ==
+  s.pos # "none" =>
+     /\ n >= 0 /\ unit >= 1 /\ total <= MaxMsg /\ n * unit + 2 <= total
+     /\ (Determinate(s) => n = SizeN(s))
+     /\ (s.pos = "max" => total + unit + 2 > MaxMsg)
+
 EncClass  == {"min", "nonmin_type", "nonmin_len"}     \* BigSize encodings of the record header
 FitClass  == {"exact", "overrun"}                     \* declared length vs bytes that remain
 ValClass  == {"ok", "bad"}                            \* value of a known type in / out of range
@@ -92,6 +134,7 @@ HasSkippedOdd(recs) == \E i \in 1..Len(recs) : IsUnkOdd(recs[i].t)
 
 Judge(m) ==
   IF m.opaque THEN <<"any", "opaque">>
+  ELSE IF ~CanFit(m.size) THEN <<"any", "oversize">>              \* not a message
   ELSE IF m.tid \in {"unknown_odd", "custom_odd"} THEN <<"ignore", "unknown_odd_type">>
   ELSE IF m.tid \in {"unknown_even", "custom_even"} THEN <<"reject", "unknown_even_type">>
   ELSE IF m.fixed = "truncated" THEN <<"reject", "short_fixed">>
@@ -128,6 +171,7 @@ StreamClean(recs) ==
 
 RuleVerdict(m) ==
   IF m.opaque THEN "any"
+  ELSE IF ~CanFit(m.size) THEN "any"
   ELSE IF m.tid \in {"unknown_odd", "custom_odd"} THEN "ignore"
   ELSE IF m.tid # "known" THEN "reject"
   ELSE IF m.fixed # "complete" THEN "reject"
@@ -146,10 +190,12 @@ Present(recs) == {KnownIdx(recs[i].t) : i \in {k \in 1..Len(recs) : IsKnown(recs
    parity), "ignore"/"reject" at the peer level (connection kept / dropped).
    exp: the engine could construct the value the shape denotes; eq: decoded = that value;
    rt: decode(encode(decoded)) = decoded;  canon: encode(decoded) = the input bytes, required when the
-   shape says the input is canonical and (cexp) the unmanipulated encoding re-encodes to itself. *)
+   shape says the input is canonical and (cexp) the unmanipulated encoding re-encodes to itself;
+   n, unit, total: the measured length of the sized field (SizeOK). *)
 Canonical(m) == m.inner \in {"boundary", "retained"}
-Conforms(m, level, obs, exp, eq, rt, over, cexp, canon) ==
+Conforms(m, level, obs, exp, eq, rt, over, cexp, canon, n, unit, total) ==
   /\ ~over
+  /\ SizeOK(m.size, n, unit, total)
   /\ LET v == Verdict(m) IN
      CASE v = "accept" -> obs = "accept" /\ (exp => eq) /\ rt /\ ((Canonical(m) /\ cexp) => canon)
        [] v = "reject" -> \/ obs = "reject"
